@@ -30,6 +30,8 @@ Suppressions:
         global state or complex return types
 """
 
+from pathlib import Path
+
 from src.core.types import Severity, Violation
 
 from . import context_filter
@@ -42,11 +44,23 @@ from .storage import StoredComparison, StoredPattern, StringlyTypedStorage
 # --- Pure helper functions for filtering ---
 
 
-def _filter_by_ignore(violations: list[Violation], ignore: list[str]) -> list[Violation]:
-    """Filter violations by ignore patterns."""
+def _filter_by_ignore(
+    violations: list[Violation], ignore: list[str], project_root: object = None
+) -> list[Violation]:
+    """Filter violations by ignore patterns (matched against the path inside the project)."""
     if not ignore:
         return violations
-    return [v for v in violations if not is_ignored(v.file_path, ignore)]
+    return [v for v in violations if not is_ignored(_inside_project(v.file_path, project_root), ignore)]
+
+
+def _inside_project(file_path: object, project_root: object) -> str:
+    """Return '/<path relative to the project root>' when the root is known, else the path as given."""
+    if project_root is None:
+        return str(file_path)
+    try:
+        return "/" + str(Path(str(file_path)).resolve().relative_to(Path(str(project_root)).resolve()))
+    except (ValueError, OSError):
+        return str(file_path)
 
 
 def _is_allowed_value_set(values: set[str], config: StringlyTypedConfig) -> bool:
@@ -347,6 +361,7 @@ class ViolationGenerator:
         storage: StringlyTypedStorage,
         rule_id: str,
         config: StringlyTypedConfig,
+        project_root: object = None,
     ) -> list[Violation]:
         """Generate violations from storage.
 
@@ -367,7 +382,7 @@ class ViolationGenerator:
         violations.extend(self._generate_comparison_violations(storage, config, covered_vars))
 
         # Apply path-based ignore patterns from config
-        violations = _filter_by_ignore(violations, config.ignore)
+        violations = _filter_by_ignore(violations, config.ignore, project_root)
 
         # Apply inline ignore directives via IgnoreChecker (file contents are cached per run only:
         # the rule object outlives the run and the files may have been edited since)
